@@ -27,7 +27,8 @@ RULE = ('always-run shape designs (every 2-input gate on identical arguments at 
         'memories, ROMs), post-synthesis (pyrtl.synthesize of small designs; 1-bit gates), '
         'logic-only multi-bit (gate ops + concat/select/memories), raw (generic + raw LogicNets with '
         'truncating destinations), directed (register/memory/input/const driving Outputs directly, '
-        'high fan-out, one gate per design with all input pairs) -- x every single pass + ordered '
+        'high fan-out, one gate per design with all input pairs), huge (about a thousand concat operands / select '
+        'indices / readers of one wire; search only) -- x every single pass + ordered '
         'pass pairs, every pass twice, p-q-p and random sequences of length 3-5 (obligations after every step; '
         'half of the cases with an explicit block= and a decoy working block) x random initial state and input '
         'sequence; a case = (design, pass sequence); '
@@ -206,7 +207,7 @@ def directed_design(rng, j):
     return pyrtl.working_block()
 
 
-N_SHAPES = 11
+N_SHAPES = 12
 
 
 def raw_select(block, src, idx, name):
@@ -235,7 +236,8 @@ def shapes_design(j):
             CSE in optimize(), post-synthesis);  5..7 full-width permuting selects (reverse / rotate /
             swizzle / duplicates) of Inputs and Registers next to identity, partial and 1-bit selects;
        8..10 constant operands in every position of n-ary concats, selects of constants, constants through
-            gates, muxes with constant data"""
+            gates, muxes with constant data;  11 several memory write ports (banked + dual-port) reading
+            high-fan-out wires"""
     pyrtl.reset_working_block()
     block = pyrtl.working_block()
     if j == 0:
@@ -310,6 +312,27 @@ def shapes_design(j):
         o <<= a.nand(pyrtl.Const(6, bitwidth=3))
         o = pyrtl.Output(7, 'k_cat_sel')
         o <<= pyrtl.concat(a[0], c[::-1], a[1:])
+    elif j == 11:
+        # several memory write ports -- three memories written at the SAME address under the SAME enable (a
+        # banked memory) and one memory with two ports at provably distinct addresses -- all reading
+        # high-fan-out wires; read ports on Outputs
+        addr = pyrtl.Input(2, 'addr')
+        we = pyrtl.Input(1, 'we')
+        d = pyrtl.Input(2, 'd')
+        banks = [pyrtl.MemBlock(bitwidth=2, addrwidth=2, name='bank%d' % k, max_write_ports=None,
+                                max_read_ports=None, asynchronous=True) for k in range(3)]
+        for k, m in enumerate(banks):
+            m[addr] <<= pyrtl.MemBlock.EnabledWrite(d ^ pyrtl.Const(k, bitwidth=2), we)
+            o = pyrtl.Output(2, 'rd%d' % k)
+            o <<= m[addr]
+        dual = pyrtl.MemBlock(bitwidth=2, addrwidth=3, name='dual', max_write_ports=None,
+                              max_read_ports=None, asynchronous=True)
+        dual[pyrtl.concat(addr, pyrtl.Const(0, bitwidth=1))] <<= pyrtl.MemBlock.EnabledWrite(d, we)
+        dual[pyrtl.concat(addr, pyrtl.Const(1, bitwidth=1))] <<= pyrtl.MemBlock.EnabledWrite(~d, we)
+        o = pyrtl.Output(2, 'rdd')
+        o <<= dual[pyrtl.concat(d[0], addr)]
+        o = pyrtl.Output(1, 'we_o')
+        o <<= we & addr[0]
     elif j == 10:
         # muxes with constant data / constant select, feeding concats with constants
         a = pyrtl.Input(3, 'a')
@@ -383,6 +406,37 @@ def fingerprint(block):
     return (frozenset(str(n) for n in block.logic), frozenset(w.name for w in block.wirevector_set))
 
 
+def huge_design(rng, j):
+    """very wide n-ary primitives (about a thousand operands / indices / readers) through every pass"""
+    pyrtl.reset_working_block()
+    n = 1100 + 100 * (j % 2)
+    a = pyrtl.Input(n, 'a')
+    b = pyrtl.Input(1, 'b')
+    if j % 2 == 0:
+        # an n-operand concat of single bits (rotated), an n-index select (reversed), a wire read ~n/2 times
+        o = pyrtl.Output(n, 'bus')
+        o <<= pyrtl.concat_list([a[(k + 7) % n] for k in range(n)])
+        o2 = pyrtl.Output(n, 'rev')
+        o2 <<= a[::-1]
+        o3 = pyrtl.Output(n // 2 + 3, 'fan')
+        o3 <<= pyrtl.concat(*([b] * (n // 2) + [a[0:3]]))
+    else:
+        # n-operand concat mixing constants, 1-bit and multi-bit operands; wide gate operands; a register bus
+        parts = []
+        k = 0
+        while len(parts) < n - 100:
+            w = 1 + (len(parts) % 3 == 0)
+            parts.append(pyrtl.Const(len(parts) & 1, bitwidth=1) if len(parts) % 97 == 5 else a[k:k + w])
+            k = (k + w) % (n - 2)
+        o = pyrtl.Output(sum(len(q) for q in parts), 'bus')
+        o <<= pyrtl.concat(*parts)
+        r = pyrtl.Register(n, 'r')
+        r.next <<= a ^ r
+        o2 = pyrtl.Output(n, 'acc')
+        o2 <<= r & a.nand(r)
+    return pyrtl.working_block()
+
+
 def build_design(ctx, i, kind):
     rng = ctx.sub_rng('design', i, kind)
     exhaustive = False
@@ -403,6 +457,8 @@ def build_design(ctx, i, kind):
     elif kind == 'shapes':
         shapes_design(i)
         exhaustive = True
+    elif kind == 'huge':
+        huge_design(rng, i)
     block = pyrtl.working_block()
     block.sanity_check()
     return block, rng, exhaustive
@@ -450,6 +506,8 @@ def run_real(block, ps, views=None, watch=None, observe=None, opsets=None):
             getattr(pyrtl, PASSES[p])(block=block)
         except (pyrtl.PyrtlError, pyrtl.PyrtlInternalError) as e:
             return k, str(e)
+        except Exception as e:   # anything else (RecursionError, KeyError, ...) is never a legitimate outcome
+            return k, 'UNEXPECTED %s: %s' % (type(e).__name__, str(e)[:200])
         finally:
             if watch is not None and fingerprint(watch[0]) != watch[1] and not watch[2]:
                 watch[2].append(p)
@@ -691,7 +749,7 @@ def robust_eval(ctx, exprs, imports, tag, shard, jobs):
 
 def run(ctx):
     quick = ctx.tier == 'quick'
-    plan = [('shapes', N_SHAPES)] + (
+    plan = [('shapes', N_SHAPES), ('huge', 1 if quick else 2)] + (
         [('directed', 16), ('generic', 8), ('synth', 4), ('logic', 6), ('raw', 6)] if quick else
         [('directed', 60), ('generic', 90), ('synth', 40), ('logic', 60), ('raw', 60)])
     decoy, decoy_snap = make_decoy()
@@ -717,7 +775,8 @@ def run(ctx):
             outs = sorted(w.name for w in block.wirevector_subset(pyrtl.Output))
             in_names = sorted(w.name for w in ins)
             probes = [(m.id, a) for m in mems for a in range(1 << m.addrwidth)]
-            pss = pass_sequences(ctx, rng, kind, i)
+            pss = pass_sequences(ctx, rng, kind, i) if kind != 'huge' else [[p] for p in range(1, 7)]
+            search_only = kind == 'huge'   # the quadratic well-formedness models would take minutes: no tie
             # wide designs (hundreds of select indices / nets) blow up under repeated one_bit_selects and make the
             # quadratic well-formedness models take minutes: keep every single pass and the pairs, drop the rest
             weight = len(block.logic) + sum(len(n.op_param) for n in block.logic if n.op == 's')
@@ -727,8 +786,11 @@ def run(ctx):
             stim = '%d %s %s %s %s' % (dflt, dump.regmap(regmap), dump.memmap(memmap),
                                         dump.inputs(inputs), nlx.pairs(probes))
             spec_exprs.append('spec_case %s %s' % (dump.coq(), stim))
-            exprs.append('c09_multi [%s] %s %s' % (
-                '; '.join('[' + '; '.join(str(p) for p in ps) + ']' for ps in pss), dump.coq(), stim))
+            if search_only:
+                exprs.append('[ref_case %s %s]' % (dump.coq(), stim))
+            else:
+                exprs.append('c09_multi [%s] %s %s' % (
+                    '; '.join('[' + '; '.join(str(p) for p in ps) + ']' for ps in pss), dump.coq(), stim))
             snap = snapshot(block)
             orig_w, orig_n = real_view(block)
             runs = []
@@ -750,15 +812,15 @@ def run(ctx):
                     stp = {'k': k, 'sane': True, 'sane_err': None, 'trace': None, 'mem': None}
                     try:
                         block.sanity_check()
-                    except (pyrtl.PyrtlError, pyrtl.PyrtlInternalError) as e:
-                        stp['sane'], stp['sane_err'] = False, str(e)
+                    except Exception as e:
+                        stp['sane'], stp['sane_err'] = False, '%s: %s' % (type(e).__name__, e)
                     stp['io'] = (sorted(w.name for w in block.wirevector_subset(pyrtl.Input)),
                                  sorted(w.name for w in block.wirevector_subset(pyrtl.Output)))
                     if stp['sane']:
                         try:
                             stp['trace'], stp['mem'] = simulate(block, regmap, memmap, inputs, dflt, outs, mems)
-                        except (pyrtl.PyrtlError, pyrtl.PyrtlInternalError) as e:
-                            stp['sane'], stp['sane_err'] = False, 'Simulation: ' + str(e)
+                        except Exception as e:
+                            stp['sane'], stp['sane_err'] = False, 'Simulation: %s: %s' % (type(e).__name__, e)
                     steps.append(stp)
                 opsets = []
                 raised_at, err = run_real(block, ps, views, (decoy, decoy_fp, culprit) if explicit else None,
@@ -783,18 +845,19 @@ def run(ctx):
                     try:
                         block.sanity_check()
                         r['sane'] = True
-                    except (pyrtl.PyrtlError, pyrtl.PyrtlInternalError) as e:
+                    except Exception as e:
                         r['sane'] = False
-                        r['sane_err'] = str(e)
+                        r['sane_err'] = '%s: %s' % (type(e).__name__, e)
                     r['wires'], r['nets'] = real_view(block)
                     r['io'] = (sorted(w.name for w in block.wirevector_subset(pyrtl.Input)),
                                sorted(w.name for w in block.wirevector_subset(pyrtl.Output)))
                     if r['sane']:
                         try:
                             r['trace'], r['mem'] = simulate(block, regmap, memmap, inputs, dflt, outs, mems)
-                        except (pyrtl.PyrtlError, pyrtl.PyrtlInternalError) as e:
-                            r['sim_err'] = str(e)
-                        if (i * 7 + si) % 10 < sample_real and 6 not in ps[:-1]:
+                        except Exception as e:
+                            r['sane'] = False
+                            r['sane_err'] = 'Simulation: %s: %s' % (type(e).__name__, e)
+                        if (i * 7 + si) % 10 < sample_real and 6 not in ps[:-1] and not search_only:
                             try:
                                 d2 = nlx.Dump(block)
                                 regmap2 = {q: v for q, v in regmap.items() if q in d2.wid}
@@ -819,7 +882,7 @@ def run(ctx):
                                 pass
                 runs.append(r)
             restore(block, snap)
-            cases.append(dict(i=i, kind=kind, names=names, outs=outs, ins=in_names, pss=pss, runs=runs,
+            cases.append(dict(search_only=search_only, i=i, kind=kind, names=names, outs=outs, ins=in_names, pss=pss, runs=runs,
                               orig=(orig_w, orig_n), inputs=inputs, dflt=dflt,
                               regmap={q.name: v for q, v in regmap.items()},
                               memmap={m.name: c for m, c in memmap.items()},
@@ -853,12 +916,15 @@ def run(ctx):
     for ci, (c, res) in enumerate(zip(cases, results)):
         names = c['names']
         oidx = [names.index(o) for o in c['outs']]
+        cmodel_ok = model_ok and not c['search_only']
+        if model_ok and c['search_only']:
+            res = [[[1] * len(HYPS), [1]] + res[0]]     # [ref_case ...]: final memories, then the cycles
         orig = res[0]
         if orig[0][0] != 1 or orig[1][0] != 1:
             ctx.model_mismatch('sanity_block/wfb false on a design accepted by sanity_check()',
                                {'design': c['i'], 'kind': c['kind'], 'nets': c['nets']})
         # decidable hypotheses of the Props/C09.v theorems, evaluated on this design
-        for hname, hval in (zip(HYPS, orig[0]) if model_ok else []):
+        for hname, hval in (zip(HYPS, orig[0]) if cmodel_ok else []):
             ctx.count('theorem_hypotheses', '%s:%s' % (hname, 'holds' if hval == 1 else 'FAILS'))
             if hval != 1:
                 ctx.model_mismatch('theorem hypothesis %s is false on a design accepted by sanity_check()' % hname,
@@ -869,7 +935,7 @@ def run(ctx):
         orig_w, orig_n = c['orig']
         for si, (ps, r) in enumerate(zip(c['pss'], c['runs'])):
             psn = [PASSES[p] for p in ps]
-            if model_ok:
+            if cmodel_ok:
                 flags, mw, morder, mn, mspec = model_view(res[1 + si], names)
                 pre_ok = flags[0] == 1
             else:
@@ -911,6 +977,13 @@ def run(ctx):
                 ctx.count('precondition', 'rejected:' + PASSES[pk])
                 ops_k = set(r['opsets'][k]) if k < len(r['opsets']) else set()
                 prev_ok = all(stp['sane'] for stp in r['steps'][:k])
+                if (r['err'] or '').startswith('UNEXPECTED '):
+                    ctx.spec_violation('%s:unexpected-exception' % PASSES[pk],
+                                       '%s died with %s at step %d of %s (only PyrtlError on a block outside the '
+                                       'documented precondition is a legitimate rejection)' % (
+                                           PASSES[pk], r['err'][11:], k + 1, psn),
+                                       dict(rep, passes=psn[:k + 1]))
+                    continue
                 if prev_ok and ops_k <= DOC_PRE.get(pk, ops_k):
                     ctx.spec_violation('%s:rejects-legal-block' % PASSES[pk],
                                        '%s raised %r on a well-formed block that meets its documented precondition '
@@ -918,11 +991,11 @@ def run(ctx):
                                            PASSES[pk], (r['err'] or '')[:150], ''.join(sorted(ops_k)), k + 1, psn),
                                        dict(rep, passes=psn[:k + 1], ops_before_the_pass=''.join(sorted(ops_k))))
                 # ---- precondition tie
-                if model_ok and pre_ok:
+                if cmodel_ok and pre_ok:
                     ctx.model_mismatch('real %s raised (%s) but the model precondition holds' % (psn, r['err']),
                                        rep)
                 continue
-            if model_ok and not pre_ok:
+            if cmodel_ok and not pre_ok:
                 ctx.model_mismatch('model precondition false but real %s did not raise' % psn, rep)
                 continue
             ctx.count('precondition', 'accepted')
@@ -956,7 +1029,7 @@ def run(ctx):
                     detail = '%s producer' % detail[0][0]
                 ctx.spec_violation(sig, 'postcondition of %s violated after %s: %s %s' % (
                     PASSES[last], psn, tag, detail), dict(rep, nets_after=[str(n) for n in rn]))
-            if model_ok:
+            if cmodel_ok:
                 ctx.count('postcondition_model', '%s:%d' % (PASSES[last], flags[1]))
             if r['trace'] is not None:
                 bad = None
@@ -975,7 +1048,7 @@ def run(ctx):
                         psn, bad[0], bad[1], bad[2], bad[3]),
                         dict(rep, first_difference={'cycle': bad[0], 'wire': bad[1], 'expected': bad[2],
                                                     'got': bad[3]}))
-            if not model_ok:
+            if not cmodel_ok:
                 continue
             # ---- tie: well-formedness verdicts
             if (flags[2] == 1) != bool(r['sane']):
